@@ -109,7 +109,7 @@ CHECKS = {
                  ["create_root_crate", "create_sub_crate", "create_root_crate_after", "create_sub_crate_after", "set_name", "set_parent",
                   "add_track(track)", "add_track(id)", "crate::remove_track", "clear_tracks", "remove_crate"]]),
         dict(prop="C14.table", harness="table_pbt", quick=dict(count=640, workers=8), thorough=dict(count=30000, workers=16),
-             essential=_V2_SCHEMAS + ["W>=2", "k>=2"] + ["table:" + m for m in
+             essential=_V2_SCHEMAS + ["W>=2", "k>=2", "read-fault"] + ["table:" + m for m in
                  ["playlist.add", "playlist.update", "playlist.move", "playlist.remove", "entity.add_back", "entity.remove", "entity.clear",
                   "track.add", "track.update", "track.remove", "track.set_column", "change_log.add", "information.played_indicator"]] +
                  ["W>=2:playlist.move", "W>=2:playlist.remove", "W>=2:entity.add_back", "W>=2:track.remove"])]),
